@@ -184,7 +184,7 @@ func zzOuts(tx *wire.MsgTx) map[wire.OutPoint]*wire.TxOut {
 // it is executed in the script interpreter.
 func zzRunC05(r *simcore.Run) {
 	cfg := chansim.DrawConfig(r.Tape)
-	mode := chansim.Mode{Cuts: r.Tape.CfgDraw(3) == 0, MaxSteps: 40 + 25*r.Tape.CfgDraw(3), MaxHtlcs: []int{4, 8, 14}[r.Tape.CfgDraw(3)]}
+	mode := chansim.Mode{Cuts: r.Tape.CfgDraw(3) == 0, MaxSteps: 40 + 25*r.Tape.CfgDraw(3), MaxHtlcs: []int{4, 8, 14}[r.Tape.CfgDraw(3)], MediumDen: 48, MediumHtlcs: 40, MediumSteps: 2}
 	every := []int{6, 10, 16}[r.Tape.CfgDraw(3)]
 	if r.Tier == "thorough" {
 		every = []int{2, 4, 8}[r.Tape.CfgDraw(3)]
